@@ -1,42 +1,7 @@
 import GlmVerif.Sem.Family
 import GlmVerif.Spec.C02
 import GlmVerif.Gen.C02
-import GlmVerif.Props.C02.T_mul
-import GlmVerif.Props.C02.T_asgmul_m
-import GlmVerif.Props.C02.T_mulmv
-import GlmVerif.Props.C02.T_mulvm
-import GlmVerif.Props.C02.T_transpose
-import GlmVerif.Props.C02.T_outer
-import GlmVerif.Props.C02.T_compmult
-import GlmVerif.Props.C02.T_addmm
-import GlmVerif.Props.C02.T_submm
-import GlmVerif.Props.C02.T_addms
-import GlmVerif.Props.C02.T_addsm
-import GlmVerif.Props.C02.T_subms
-import GlmVerif.Props.C02.T_subsm
-import GlmVerif.Props.C02.T_mulms
-import GlmVerif.Props.C02.T_mulsm
-import GlmVerif.Props.C02.T_divms
-import GlmVerif.Props.C02.T_divsm
-import GlmVerif.Props.C02.T_negm
-import GlmVerif.Props.C02.T_posm
-import GlmVerif.Props.C02.T_preinc
-import GlmVerif.Props.C02.T_predec
-import GlmVerif.Props.C02.T_postinc
-import GlmVerif.Props.C02.T_postdec
-import GlmVerif.Props.C02.T_asgadd_m
-import GlmVerif.Props.C02.T_asgsub_m
-import GlmVerif.Props.C02.T_asgadd_s
-import GlmVerif.Props.C02.T_asgsub_s
-import GlmVerif.Props.C02.T_asgmul_s
-import GlmVerif.Props.C02.T_asgdiv_s
-import GlmVerif.Props.C02.T_asg_m
-import GlmVerif.Props.C02.T_row_get
-import GlmVerif.Props.C02.T_row_set
-import GlmVerif.Props.C02.T_col_get
-import GlmVerif.Props.C02.T_col_set
-import GlmVerif.Props.C02.T_ctor_diag
-import GlmVerif.Props.C02.T_conv
+import GlmVerif.Props.C02.All
 /-!
 # C02 — matrix operators/functions implement column-major linear algebra
 
@@ -50,11 +15,6 @@ every field of characteristic zero, for every value of every entry.
 namespace Glm.Props.C02
 open Glm Glm.Spec.C02 Glm.Gen.C02
 
-
-/-- every family table of C02 holds for the model generated from the current /repo -/
-theorem all_ok : ∀ f ∈ families, f.ok lookup = true := by
-  simp only [families, List.mem_cons, List.not_mem_nil, or_false, forall_eq_or_imp, forall_eq]
-  exact ⟨mul_ok, asgmul_m_ok, mulmv_ok, mulvm_ok, transpose_ok, outer_ok, compmult_ok, addmm_ok, submm_ok, addms_ok, addsm_ok, subms_ok, subsm_ok, mulms_ok, mulsm_ok, divms_ok, divsm_ok, negm_ok, posm_ok, preinc_ok, predec_ok, postinc_ok, postdec_ok, asgadd_m_ok, asgsub_m_ok, asgadd_s_ok, asgsub_s_ok, asgmul_s_ok, asgdiv_s_ok, asg_m_ok, row_get_ok, row_set_ok, col_get_ok, col_set_ok, ctor_diag_ok, conv_ok⟩
 
 /-! ## The statements in mathematical form
 
@@ -75,8 +35,8 @@ theorem matmul_correct (C R C2 : Nat) (hs : [C, R, C2] ∈ shapes3) (c r : Nat) 
     calc c * R + r < c * R + R := by omega
       _ = (c + 1) * R := by ring
       _ ≤ C2 * R := Nat.mul_le_mul_right R hc
-  have := Family.poly_sound (R := R') ringOps_ringLike mul_ok rfl rfl (ks := [C, R, C2]) hs hj env
-  rw [show lookup "mul" [C, R, C2] = lookup f_mul.unit [C, R, C2] from rfl, Family.out_eval _ mul_ok rfl hs]
+  have := Family.poly_sound (R := R') ringOps_ringLike (all_ok f_mul (by simp [families])) rfl rfl (ks := [C, R, C2]) hs hj env
+  rw [show lookup "mul" [C, R, C2] = lookup f_mul.unit [C, R, C2] from rfl, Family.out_eval _ (all_ok f_mul (by simp [families])) rfl hs]
   refine this.trans ?_
   show (mul C R C2 (c * R + r)).eval (ringOps R') env = _
   have h1 : (c * R + r) % R = r := by rw [Nat.mul_comm, Nat.mul_add_mod]; exact Nat.mod_eq_of_lt hr
@@ -89,8 +49,8 @@ theorem matmul_correct (C R C2 : Nat) (hs : [C, R, C2] ∈ shapes3) (c r : Nat) 
 theorem matvec_correct (C R : Nat) (hs : [C, R] ∈ shapes) (r : Nat) (hr : r < R) (env : Nat → R') :
     ((lookup "mulmv" [C, R]).out r).eval (ringOps R') env
       = ((List.range C).map fun c => env (c * R + r) * env (C * R + c)).sum := by
-  have := Family.poly_sound (R := R') ringOps_ringLike mulmv_ok rfl rfl (ks := [C, R]) hs (j := r) hr env
-  rw [show lookup "mulmv" [C, R] = lookup f_mulmv.unit [C, R] from rfl, Family.out_eval _ mulmv_ok rfl hs]
+  have := Family.poly_sound (R := R') ringOps_ringLike (all_ok f_mulmv (by simp [families])) rfl rfl (ks := [C, R]) hs (j := r) hr env
+  rw [show lookup "mulmv" [C, R] = lookup f_mulmv.unit [C, R] from rfl, Family.out_eval _ (all_ok f_mulmv (by simp [families])) rfl hs]
   refine this.trans ?_
   show (mulmv C R r).eval (ringOps R') env = _
   simp only [mulmv, sumE_eval, List.map_map]
@@ -100,8 +60,8 @@ theorem matvec_correct (C R : Nat) (hs : [C, R] ∈ shapes) (r : Nat) (hr : r < 
 theorem vecmat_correct (C R : Nat) (hs : [C, R] ∈ shapes) (c : Nat) (hc : c < C) (env : Nat → R') :
     ((lookup "mulvm" [C, R]).out c).eval (ringOps R') env
       = ((List.range R).map fun r => env r * env (R + c * R + r)).sum := by
-  have := Family.poly_sound (R := R') ringOps_ringLike mulvm_ok rfl rfl (ks := [C, R]) hs (j := c) hc env
-  rw [show lookup "mulvm" [C, R] = lookup f_mulvm.unit [C, R] from rfl, Family.out_eval _ mulvm_ok rfl hs]
+  have := Family.poly_sound (R := R') ringOps_ringLike (all_ok f_mulvm (by simp [families])) rfl rfl (ks := [C, R]) hs (j := c) hc env
+  rw [show lookup "mulvm" [C, R] = lookup f_mulvm.unit [C, R] from rfl, Family.out_eval _ (all_ok f_mulvm (by simp [families])) rfl hs]
   refine this.trans ?_
   show (mulvm C R c).eval (ringOps R') env = _
   simp only [mulvm, sumE_eval, List.map_map]
@@ -118,8 +78,8 @@ theorem conv_correct {α : Type} (o : Ops α) (C R C2 R2 : Nat) (hs : [C, R, C2,
     calc c * R + r < c * R + R := by omega
       _ = (c + 1) * R := by ring
       _ ≤ C * R := Nat.mul_le_mul_right R hc
-  have := Family.syn_sound o conv_ok rfl rfl (ks := [C, R, C2, R2]) hs hj env
-  rw [show lookup "conv" [C, R, C2, R2] = lookup f_conv.unit [C, R, C2, R2] from rfl, Family.out_eval _ conv_ok rfl hs]
+  have := Family.syn_sound o (all_ok f_conv (by simp [families])) rfl rfl (ks := [C, R, C2, R2]) hs hj env
+  rw [show lookup "conv" [C, R, C2, R2] = lookup f_conv.unit [C, R, C2, R2] from rfl, Family.out_eval _ (all_ok f_conv (by simp [families])) rfl hs]
   refine this.trans ?_
   show (conv C R C2 R2 (c * R + r)).eval o env = _
   have h1 : (c * R + r) % R = r := by rw [Nat.mul_comm, Nat.mul_add_mod]; exact Nat.mod_eq_of_lt hr
